@@ -112,6 +112,21 @@ func (g *gen) join(realm int, allFeatures bool) int {
 	g.feats[s] = map[string]bool{"caller_prog": caller["progressive_call_invocations"], "ppt": ppt}
 	roles := Dict(KV{"subscriber", feat(sub)}, KV{"publisher", feat(map[string]bool{"publisher_exclusion": true, "payload_passthru_mode": ppt})},
 		KV{"callee", feat(callee)}, KV{"caller", feat(caller)})
+	if !allFeatures && g.chance(0.15) {
+		// a client that announces only some of the four roles (the router
+		// does not tie what a session may do to them)
+		keep := roles.D[:0:0]
+		for _, kv := range roles.D {
+			if g.chance(0.55) {
+				keep = append(keep, kv)
+			}
+		}
+		if len(keep) == 0 {
+			keep = append(keep, roles.D[g.r.IntN(len(roles.D))])
+		}
+		roles = Val{T: 'd', D: keep}
+		g.tag("partial-roles")
+	}
 	hello := Dict(KV{"roles", roles})
 	local := g.chance(0.7) || allFeatures
 	if local {
@@ -1127,6 +1142,7 @@ func Generate(profile string, seed uint64, idx int, maxOps, maxSess int) *Scenar
 	for i := 0; i < realms; i++ {
 		g.sc.Realms = append(g.sc.Realms, cfg)
 	}
+	g.sc.Debug = g.chance(0.3)
 	if (realms > 1 && g.chance(0.35)) || (realms == 1 && g.chance(0.12)) {
 		g.sc.Template = true
 		if realms > 1 {
